@@ -97,7 +97,8 @@ def run(rep, ctx):
             dict(unit=BU, fn=[r"mp::BackendWithModelManager::(ReportError|HandleSolution)", r"mp::StdBackend::RunFromNLFile"], repo=repo),
             dict(unit=MM, fn=[r"mp::ModelManagerWithProblemBuilder::(ReadNLModel|ReadNLFile|HandleSolution|MakeProperSolutionHandler).*",
                               r"mp::internal::SolverNLHandlerImpl::OnHeader", r"mp::SolutionWriterImpl::HandleSolution",
-                              r"mp::SolutionAdapter::.*", r"mp::Error::Error", r"mp::WriteSolFile", r"mp::BasicExprVisitor::VisitUnsupported"],
+                              r"mp::SolutionAdapter::.*", r"mp::Error::Error", r"mp::WriteSolFile", r"mp::BasicExprVisitor::VisitUnsupported",
+                              r"mp::BasicProblem::SuffixHandler::SetValue"],
                  repo=repo),
             dict(unit="src/posix.cc", fn=[r"fmt::BufferedFile::(close|BufferedFile|~BufferedFile)"], repo=repo),
             dict(unit=CU, fn=[r"mp::BasicExprVisitor::VisitUnsupported", r"mp::FlatConverter::ConvertItems"], repo=repo)]
@@ -225,7 +226,17 @@ def run(rep, ctx):
                 if not ce:
                     continue
                 args = kids(ce[0])
-                if len(args) != 2 or strip(args[1])["k"] == "CXXDefaultArgExpr" or not (ce[0].get("calleeId") or "").endswith("Ei"):
+                lits_all = [x.get("v") or "" for x in walk(kids(t)[0]) if x["k"] == "StringLiteral"]
+                says_infeasible = any("infeasible" in v.lower() for v in lits_all)
+                explicit = len(args) == 2 and strip(args[1])["k"] != "CXXDefaultArgExpr" and (ce[0].get("calleeId") or "").endswith("Ei")
+                if says_infeasible:
+                    code = cv(args[1]) if explicit else None
+                    p2.check(code is not None and 200 <= code <= 299, "infeasible-wording|%s|%s" % (f.qn.replace("mp::", ""), short_loc(t.get("l")).split(":")[-1]),
+                             short_loc(t.get("l")), "an error that says the model is infeasible carries code %s" % code,
+                             "the error message %r reports infeasibility but the error carries %s: the run ends with a solve result outside "
+                             "200-299" % ([v for v in lits_all if "infeasible" in v.lower()][0][:60],
+                                          ("code %s" % code) if explicit else "no code (reported as failure 500)"))
+                if not explicit:
                     continue
                 a1 = args[1]
                 if "int" not in (strip(a1).get("ct") or ""):
@@ -240,7 +251,9 @@ def run(rep, ctx):
                     p2.check(in_class(cv(a1)), key, short_loc(t.get("l")), "throws mp::Error with code %s" % cv(a1),
                              "throws mp::Error with code %s, outside the solution-check/infeasible/failure classes" % cv(a1))
                 else:
-                    isparam = strip(a1)["k"] == "DeclRefExpr" and strip(a1).get("dk") in ("Parm", "ParmVar")
+                    isparam = (strip(a1)["k"] == "DeclRefExpr" and strip(a1).get("dk") in ("Parm", "ParmVar")) or \
+                        (strip(a1)["k"] == "CXXMemberCallExpr" and strip(a1).get("callee") == "mp::Error::exit_code" and
+                         f.enclosing(t, ("CXXCatchStmt",)) is not None)      # the code of the error being re-wrapped
                     m0 = args[0]
                     lit = [x for x in walk(m0) if x["k"] == "StringLiteral"]
                     trap = any("{" in (x.get("v") or "") for x in lit)
@@ -249,6 +262,48 @@ def run(rep, ctx):
                               "the error is reported with that number as solve result" % (lit[0].get("v"), render(a1))) if trap else
                              "throws mp::Error with the non-constant code `%s`" % render(a1))
     rep.extra["explicit_code_throw_sites"] = nsites
+    # re-wrapping handlers: a handler that builds a new mp::Error from a caught exception's text must keep an mp::Error's code
+    wjobs = []
+    for U_, d0 in zip(SCAN, cgs):
+        qs = sorted({f_["qn"] for f_ in d0["callgraph"] if any(c.split("\t")[1] in ("std::exception::what", "std::runtime_error::what") for c in f_["callees"])
+                     and any(c.startswith("throw:mp::Error\t") for c in f_["callees"])})
+        if qs:
+            wjobs.append(dict(unit=U_, fn=[rx(q) for q in qs], repo=repo))
+    seen_w = set()
+    nwrap = 0
+    for d in export_many(wjobs):
+        for f in Facts([d]).funcs:
+            if f.is_dependent():
+                continue
+            for tr_ in [n for n in f.walk() if n["k"] == "CXXTryStmt"]:
+                hs = catches(tr_)
+                for ct, h in hs:
+                    base = ct.replace("const ", "").replace("&", "").strip()
+                    if base != "std::exception":
+                        continue
+                    th = [x for x in walk(h) if x["k"] == "CXXThrowExpr" and kids(x) and
+                          any(y.get("callee") == "mp::Error::Error" for y in walk(x)) and any(y.get("callee", "").endswith("::what") for y in walk(x))]
+                    if not th:
+                        continue
+                    key = "rewrap|%s|%s" % (f.qn.replace("mp::", ""), short_loc(h.get("l")).split(":")[-1])
+                    if key in seen_w:
+                        continue
+                    seen_w.add(key)
+                    nwrap += 1
+                    keep = False
+                    for ct2, h2 in hs:
+                        if ct2.replace("const ", "").replace("&", "").strip() == "mp::Error" and hs.index((ct2, h2)) < hs.index((ct, h)):
+                            for x in walk(h2):
+                                if x["k"] == "CXXThrowExpr" and kids(x):
+                                    ce2 = [y for y in walk(x) if y["k"] in ("CXXConstructExpr", "CXXTemporaryObjectExpr") and y.get("callee") == "mp::Error::Error"]
+                                    if ce2 and len(kids(ce2[0])) == 2 and strip(kids(ce2[0])[1]).get("callee") == "mp::Error::exit_code":
+                                        keep = True
+                                if x["k"] == "CXXThrowExpr" and not kids(x):
+                                    keep = True         # plain rethrow
+                    p2.check(keep, key, short_loc(h.get("l")), "%s re-wraps exceptions but keeps the code of an mp::Error (separate handler)" % f.qn.split("::")[-1],
+                             "%s catches std::exception and throws a new mp::Error from its text: the code of a caught mp::Error (e.g. 200 for an "
+                             "infeasible model) is lost and the run is reported as a generic failure" % f.qn)
+    rep.extra["rewrap_handlers"] = nwrap
 
     # ---- E1 ---------------------------------------------------------------------------
     e1 = rep.rule("C09.E1", "WHO", "exception types not derived from std::exception do not escape the converter", floor=2)
@@ -420,6 +475,41 @@ def run(rep, ctx):
     p4.check(okt, "close-throws", short_loc(bc[0].loc), "BufferedFile::close throws when fclose fails")
     ctor = [f for f in funcs if f.qn == "fmt::BufferedFile::BufferedFile" and len(f.params) == 2 and any(n["k"] == "CXXThrowExpr" for n in f.walk())]
     p4.check(bool(ctor), "open-throws", short_loc(ctor[0].loc) if ctor else "", "BufferedFile(filename, mode) throws when the file cannot be opened")
+
+    # ---- M1 ---------------------------------------------------------------------------
+    m1 = rep.rule("C09.M1", "GUARD", "suffix values written while reporting a solution stay inside the suffix (e.g. objective suffixes of a "
+                  "model without objectives)", floor=2)
+    sh = [f for f in funcs if f.qn == "mp::BasicProblem::SuffixHandler::SetValue"]
+    if not sh:
+        raise AnalysisBroken("BasicProblem::SuffixHandler::SetValue not found")
+    seen_m = set()
+    for f in sh:
+        k = "SetValue|%s" % f.full.split("SuffixHandler<")[-1][:20]
+        if k in seen_m:
+            continue
+        seen_m.add(k)
+        st = [c for c in f.walk() if c["k"] == "CXXMemberCallExpr" and c.get("callee", "").endswith("::set_value")]
+        ok = len(st) == 1
+        if ok:
+            fa = []
+            for cid, pol in f.cfg.facts_at(st[0]):
+                stack = [strip(f.nodes[cid])]
+                while stack:
+                    x = stack.pop()
+                    if pol is True and x["k"] == "BinaryOperator" and x.get("op") == "&&":
+                        stack.extend(strip(y) for y in kids(x))
+                    else:
+                        fa.append((render(x).replace(" ", ""), pol))
+            idx = f.params[0]["name"]
+            ok = any(t in ("%s<suffix_.num_values()" % idx,) and pol is True for t, pol in fa) and \
+                any(t in ("%s>=0" % idx,) and pol is True for t, pol in fa)
+        m1.check(ok, k, short_loc(f.loc), "SetValue writes only when 0 <= index < num_values()",
+                 "SetValue(index, v) writes int_values[index] unchecked: HandleSolution sets item 0 of the objective suffixes nsol/npool, "
+                 "which have no item when the model has no objective (null array: crash)")
+    hsw2 = one("mp::SolutionWriterImpl::HandleSolution")
+    sv = [c for c in hsw2.walk() if c["k"] == "CXXMemberCallExpr" and c.get("callee", "").endswith("SuffixHandler::SetValue")]
+    m1.check(all(cv(call_args(c)[0]) == 0 for c in sv), "HandleSolution|index-0", short_loc(hsw2.loc),
+             "HandleSolution only sets item 0 of the %d suffixes it creates" % len(sv))
 
     # ---- U1 ---------------------------------------------------------------------------
     u1 = rep.rule("C09.U1", "DISPATCH", "unsupported constructs raise UnsupportedError unconditionally", floor=1)
